@@ -32,25 +32,34 @@ Theorem C14_wheel_file_roundtrip :
 Proof. exact wheel_file_roundtrip. Qed.
 Print Assumptions C14_wheel_file_roundtrip.
 
-Theorem C14_sdist_roundtrip_partial :
+(* FULL STRENGTH (after the parse_source_filename repair): every project name none of whose dash-separated
+   parts looks like a version; every version text that starts like one, has no '-'/'_' and whose public part
+   has no dotted part starting with linux/windows/macos (C14_sdist_canonical_versions: all canonical PEP 440
+   versions, local labels included) *)
+Theorem C14_sdist_roundtrip :
   forall (V : Type) (pv : string -> option V) n vs ext,
   In ext src_exts ->
-  stem_ok (n ++ "-" ++ vs) ext = true ->
   Forall (fun p => looks_version p = false) (split_on "-"%char (repl_char ("_"%char, "-"%char) n)) ->
   looks_version vs = true -> no_ch "-" vs -> no_ch "_" vs ->
-  (forall p, In p (tl (split_on "."%char vs)) -> is_plat p = false) ->
+  (forall p, In p (tl (split_on "."%char (before_first "+"%char vs))) -> is_plat p = false) ->
   parse_source V pv (sdist_name n vs ext) = SrcOk (repl_char ("_"%char, "-"%char) n) (pv vs).
-Proof. exact sdist_roundtrip_partial. Qed.
-Print Assumptions C14_sdist_roundtrip_partial.
+Proof. exact sdist_roundtrip. Qed.
+Print Assumptions C14_sdist_roundtrip.
 
-(* ... and through filename_to_candidate (extension test, dumb-binary filter, Candidate fields) *)
+Theorem C14_sdist_canonical_versions :
+  forall vs, all_chars pubchar (before_first "+"%char vs) = true ->
+  forall p, In p (tl (split_on "."%char (before_first "+"%char vs))) -> is_plat p = false.
+Proof. exact canonical_public_no_platform. Qed.
+Print Assumptions C14_sdist_canonical_versions.
+
+(* ... and through filename_to_candidate (extension test, dumb-binary filter, Candidate fields); partial:
+   the dumb-binary filter is a heuristic on the whole file name *)
 Theorem C14_sdist_file_roundtrip_partial :
   forall (V : Type) (pv : string -> option V) n vs ext v,
   In ext src_exts ->
-  stem_ok (n ++ "-" ++ vs) ext = true ->
   Forall (fun p => looks_version p = false) (split_on "-"%char (repl_char ("_"%char, "-"%char) n)) ->
   looks_version vs = true -> no_ch "-" vs -> no_ch "_" vs ->
-  (forall p, In p (tl (split_on "."%char vs)) -> is_plat p = false) ->
+  (forall p, In p (tl (split_on "."%char (before_first "+"%char vs))) -> is_plat p = false) ->
   no_ch "/" n -> no_ch "/" vs ->
   existsb (fun m => containsb m (sdist_name n vs ext)) dumb_markers = false ->
   pv vs = Some v ->
@@ -59,27 +68,20 @@ Theorem C14_sdist_file_roundtrip_partial :
 Proof. exact sdist_file_roundtrip. Qed.
 Print Assumptions C14_sdist_file_roundtrip_partial.
 
+Theorem C14_sdist_file_refuted_dumb_marker_in_name :
+  exists n vs ext, In ext src_exts /\
+    Forall (fun p => looks_version p = false) (split_on "-"%char (repl_char ("_"%char, "-"%char) n)) /\
+    looks_version vs = true /\ all_chars pubchar vs = true /\
+    parse_source string Some (sdist_name n vs ext) = SrcOk n (Some vs) /\
+    file_to_cand string Some (sdist_name n vs ext) = FNone.
+Proof. exact sdist_file_refuted_dumb_marker_in_name. Qed.
+Print Assumptions C14_sdist_file_refuted_dumb_marker_in_name.
+
 (* the name returned for a source archive is the project name up to normalize_project_name *)
 Theorem C14_sdist_name_normalises :
   forall n, norm (repl_char ("_"%char, "-"%char) n) = norm n.
 Proof. exact sdist_name_normalises. Qed.
 Print Assumptions C14_sdist_name_normalises.
-
-Theorem C14_sdist_roundtrip_refuted_local_platform :
-  exists n vs ext, In ext src_exts /\
-    Forall (fun p => looks_version p = false) (split_on "-"%char (repl_char ("_"%char, "-"%char) n)) /\
-    looks_version vs = true /\ no_ch "-" vs /\ no_ch "_" vs /\
-    parse_source string Some (sdist_name n vs ext) = SrcOk n (Some "1.0+abc") /\ vs = "1.0+abc.linux".
-Proof. exact sdist_roundtrip_refuted_local_platform. Qed.
-Print Assumptions C14_sdist_roundtrip_refuted_local_platform.
-
-Theorem C14_sdist_roundtrip_refuted_local_ext :
-  exists n vs ext, In ext src_exts /\
-    Forall (fun p => looks_version p = false) (split_on "-"%char (repl_char ("_"%char, "-"%char) n)) /\
-    looks_version vs = true /\ no_ch "-" vs /\ no_ch "_" vs /\
-    parse_source string Some (sdist_name n vs ext) = SrcOk n (Some "1.0+a") /\ vs = "1.0+a.zip".
-Proof. exact sdist_roundtrip_refuted_local_ext. Qed.
-Print Assumptions C14_sdist_roundtrip_refuted_local_ext.
 
 Theorem C14_source_never_raises :
   forall (V : Type) (pv : string -> option V) f,
@@ -129,40 +131,29 @@ Proof. exact hidden_only_by_false_clause. Qed.
 Print Assumptions C14_hidden_only_by_false_clause.
 
 (* ---- index pages ---- *)
+(* "exactly the anchors ..., each with its own link": c is offered with link l iff c was read from text
+   inside an <a> element (no anchor start/end tag in between) whose last href is l and whose
+   requires-python attribute does not exclude the interpreter *)
 Theorem C14_page_exact :
   forall (V : Type) (pvf : string -> option V) (pvr : string -> option version) (sys : interp),
   pvf missing_version <> None ->
   forall evs c l,
   In (c, l) (offered V pvf pvr sys evs) <->
-  exists pre attrs mid d post rp,
-    evs = (pre ++ EStart pg_anchor attrs :: mid ++ EData d :: post)%list /\ Forall not_start mid /\
-    scan_attrs attrs None None = (Some l, rp) /\ gate_skip pvr sys rp = Some false /\
-    file_to_cand V pvf d = FCand c.
+  exists pre attrs mid d post,
+    evs = (pre ++ EStart pg_anchor attrs :: mid ++ EData d :: post)%list /\ Forall quiet mid /\
+    anchor_ctx pvr sys attrs = (Some l, false) /\ file_to_cand V pvf d = FCand c.
 Proof. exact page_exact. Qed.
 Print Assumptions C14_page_exact.
 
-Theorem C14_page_dom_partial :
+(* FULL STRENGTH (after the anchor-scope repair): for EVERY event stream - text after </a>, text nested in
+   child elements, unclosed anchors, anything html.parser delivers - the offered list, in order, is the
+   DOM-level reading of the page *)
+Theorem C14_page_dom :
   forall (V : Type) (pvf : string -> option V) (pvr : string -> option version) (sys : interp),
   pvf missing_version <> None ->
-  forall items, Forall (item_ok V pvf) items ->
-  offered V pvf pvr sys (flat_map events_of items) = flat_map (reading_of V pvf pvr sys) items /\
-  dom_offered V pvf pvr sys None (flat_map events_of items) = flat_map (reading_of V pvf pvr sys) items.
-Proof. exact page_dom_partial. Qed.
-Print Assumptions C14_page_dom_partial.
-
-Theorem C14_page_dom_refuted_trailing_text :
-  List.length (offered string pvS pvN sys38 trailing_page) = 2 /\
-  List.length (dom_offered string pvS pvN sys38 None trailing_page) = 1 /\
-  map (fun cl => (c_file (fst cl), snd cl)) (offered string pvS pvN sys38 trailing_page) =
-    [("x-1.0-py3-none-any.whl", Some "x-1.0-py3-none-any.whl#sha256=ab"); (" y-1.0.tar.gz", Some "x-1.0-py3-none-any.whl#sha256=ab")].
-Proof. exact page_dom_refuted_trailing_text. Qed.
-Print Assumptions C14_page_dom_refuted_trailing_text.
-
-Theorem C14_page_dom_refuted_nested_text :
-  offered string pvS pvN sys38 nested_page = [] /\
-  map (fun cl => (c_file (fst cl), snd cl)) (dom_offered string pvS pvN sys38 None nested_page) = [("x-1.0.tar.gz", Some "x-1.0.tar.gz")].
-Proof. exact page_dom_refuted_nested_text. Qed.
-Print Assumptions C14_page_dom_refuted_nested_text.
+  forall evs, offered V pvf pvr sys evs = dom_offered V pvf pvr sys None evs.
+Proof. exact page_dom. Qed.
+Print Assumptions C14_page_dom.
 
 Theorem C14_hash_is_links_fragment :
   forall path algo digest,
